@@ -19,7 +19,8 @@
  *   wbyte <offset> <size>               io_channel_write_byte
  *   zero|disc <block> <count>           io_channel_zeroout / io_channel_discard (after io_channel_flush)
  *   close <finished>                    io_channel_close; finished = 0 sets UNDO_IO_SIMULATE_UNFINISHED
- *   flip <byte> <bit>                   flip one bit of the undo file
+ *   flip hdr|sb|key|data|raw <k> <i>    flip bit i of the checksummed bytes of the header / superblock copy / k-th key
+ *                                       block / data of the k-th key (raw: bit i%8 of byte k); unflip takes it back
  *   tamper                              overwrite the superblock area of the device with foreign bytes
  *   e2undo <flags>                      run $E2UNDO <flags> undo dev under iotrace; flags: "-", "-n", "-f", ...
  */
@@ -47,6 +48,10 @@ static io_channel chan;
 static long long fsoff;
 static int opno;
 static unsigned int crctab[256];
+#define MAXK 8192
+static unsigned long long lay_kpos[MAXK], lay_fileblk[MAXK];
+static unsigned int lay_size[MAXK], lay_nk, lay_nkb, lay_tdb;
+static long long flip_byte = -1; static int flip_bit;
 
 static void crc_init(void)
 {
@@ -136,6 +141,7 @@ static void print_undo(FILE *o)
 		if (fd >= 0) close(fd);
 		return;
 	}
+	lay_nk = lay_nkb = lay_tdb = 0;
 	nkeys = le64(hdr + 8); soff = le64(hdr + 16); koff = le64(hdr + 24);
 	tdb = le32(hdr + 32); fsbs = le32(hdr + 36); state = le32(hdr + 44); foff = le64(hdr + 64);
 	if (memcmp(hdr, "E2UNDO02", 8) || crc32c(~0u, hdr, 508) != le32(hdr + 508))
@@ -156,6 +162,7 @@ static void print_undo(FILE *o)
 	if (pok && tdb >= G && tdb <= 1048576 && fsbs && nkeys < 100000) {
 		char kpos[8192]; int kl = 0;
 		kpb = tdb / 16 - 1;
+		lay_tdb = tdb;
 		keyb = malloc(tdb);
 		dat = malloc((size_t)512 * tdb);
 		lblk = koff;
@@ -168,6 +175,7 @@ static void print_undo(FILE *o)
 			memset(keyb + 4, 0, 4);
 			if (le32(keyb) != 0xCADECADEu || crc32c(~0u, keyb, tdb) != crc) { pok = 0; break; }
 			if (kl < 8000) kl += sprintf(kpos + kl, "%s%llu", kl ? "," : "", lblk);
+			if (lay_nkb < MAXK) lay_kpos[lay_nkb++] = lblk;
 			lblk++;
 			for (j = 0; j < maxj; j++) {
 				unsigned char *k = keyb + 16 + 16 * j;
@@ -181,6 +189,7 @@ static void print_undo(FILE *o)
 					if (r < 0) r = 0;
 					memset(dat + r, 0xA5, size - r);
 				}
+				if (lay_nk < MAXK) { lay_fileblk[lay_nk] = lblk; lay_size[lay_nk++] = size; }
 				fprintf(o, "%s[%llu,%u,", first ? "" : ",", fsblk, (size + G - 1) / G);
 				print_tags(o, dat, size);
 				fprintf(o, ",%llu]", lblk);
@@ -325,14 +334,36 @@ int main(void)
 			unsetenv("UNDO_IO_SIMULATE_UNFINISHED");
 			line_end(o, "close", a, 0, rv, 1);
 		} else if (!strcmp(cmd, "flip")) {
+			/* flip hdr|sb|key|data|raw <k> <bit index inside the checksummed bytes of that object> */
 			int fd = open(undopath, O_RDWR);
 			unsigned char c;
-			sscanf(line, "%*s %lld %lld", &a, &b);
-			if (fd < 0 || pread(fd, &c, 1, a) != 1) { fprintf(stderr, "flip outside the undo file\n"); return 2; }
-			c ^= 1 << b;
-			pwrite(fd, &c, 1, a);
+			long long k = 0, i = 0, byte = -1, blkno = -1;
+			FILE *nul = fopen("/dev/null", "w");
+			s1[0] = 0;
+			sscanf(line, "%*s %63s %lld %lld", s1, &k, &i);
+			print_undo(nul);		/* refresh the layout */
+			fclose(nul);
+			if (!strcmp(s1, "hdr")) { byte = i / 8; blkno = 0; if (byte >= 512) byte = -1; }
+			else if (!strcmp(s1, "sb") && lay_tdb) { byte = (long long)lay_tdb + i / 8; blkno = 1; if (i / 8 >= G) byte = -1; }
+			else if (!strcmp(s1, "key") && k < lay_nkb) { byte = lay_kpos[k] * lay_tdb + i / 8; blkno = lay_kpos[k]; if (i / 8 >= lay_tdb) byte = -1; }
+			else if (!strcmp(s1, "data") && k < lay_nk && i / 8 < lay_size[k]) { byte = lay_fileblk[k] * lay_tdb + i / 8; blkno = lay_fileblk[k] + (i / 8) / lay_tdb; }
+			else if (!strcmp(s1, "raw")) { byte = k; blkno = -1; }
+			if (fd < 0 || byte < 0 || pread(fd, &c, 1, byte) != 1) { fprintf(stderr, "flip outside the undo file: %s", line); return 2; }
+			c ^= 1 << (i % 8);
+			pwrite(fd, &c, 1, byte);
 			close(fd);
-			line_end(o, "flip", a, b, 0, 0);
+			flip_byte = byte; flip_bit = i % 8;
+			line_end(o, "flip", blkno, byte, 0, 0);
+		} else if (!strcmp(cmd, "unflip")) {
+			int fd = open(undopath, O_RDWR);
+			unsigned char c;
+			if (fd >= 0 && flip_byte >= 0 && pread(fd, &c, 1, flip_byte) == 1) {
+				c ^= 1 << flip_bit;
+				pwrite(fd, &c, 1, flip_byte);
+			}
+			if (fd >= 0) close(fd);
+			flip_byte = -1;
+			line_end(o, "unflip", 0, 0, 0, 0);
 		} else if (!strcmp(cmd, "tamper")) {
 			int fd = open(devpath, O_RDWR);
 			unsigned char buf[G];
